@@ -129,6 +129,21 @@ CLAIMS['C03'] = dict(
          'not decide the Gauss-Legendre bin average, Gaunt-factor tables or any numeric total.',
     technique='guard dominance per radiance term, exact rational normal forms of radiance expressions, call-argument provenance, constant folding against reference values')
 
+CLAIMS['C02'] = dict(
+    text='Decides structural necessary conditions for the seven line shapes and the two primitives by finite-guard partial '
+         'evaluation (polarisation in {pi, sigma, no} x {B = 0, B != 0}, every other condition enumerated) and exact rational '
+         'algebra: a line with no width calls no primitive and the primitives return the spectrum untouched for width <= 0; the '
+         'primitive calls under "no" are exactly those under "pi" plus those under "sigma" with coefficients added per identical '
+         '(primitive, wavelength, width) -- bin-by-bin additivity for all inputs since the same primitive gets the same arguments; '
+         'the coefficients under "no" sum to exactly the supplied radiance (sin^2 := 1 - cos^2, multiplet ratios normalised at '
+         'their source, Stark weights lorentz + gauss = 1, the nine MSE components as a rational identity) with pi share 1/2 '
+         'sin^2 and each sigma share 1/4 sin^2 + 1/2 cos^2; both primitives clip the window identically; the Gaussian primitive '
+         'adds radiance (erf(A(i+1)) - erf(A(i)))/(2 delta) to bin i (recognised through the loop-carried recurrence), i.e. the '
+         'bin average of the unit-area Gaussian up to the +-10 sigma truncation, and the Lorentzian primitive adds radiance times '
+         'the integral over consecutive edges / delta. Does not decide the Stark quadrature, truncation error or the hyp2f1 '
+         'normalisation constant.',
+    technique='finite-guard partial evaluation (path enumeration over a finite abstract domain) + exact rational algebra on sink-call multisets; loop-carried recurrence recognition')
+
 # ---- everything not claimed above is pending / not applicable
 _pending = 'check not built yet in this session (see DESIGN.md build order); not claimed until it is'
 for _p in ['C%02d' % i for i in range(1, 21)]:
